@@ -4,10 +4,10 @@ from hc_oracles import subsequence_oracle, crash_oracle
 
 PROP = "C01"
 COQ_FILE = "props/C01.v"
-THEOREMS = ['C01_receiver_delivery_log', 'C01_receiver_delivery_order', 'C01_sender_ids_and_payload', 'C01_frame_accepted_once', 'C01_slot_produces_once', 'C01_wire_exact', 'C01_reassembly_exact', 'C01_single_fragment_exact']
+THEOREMS = ['C01_receiver_delivery_log', 'C01_receiver_delivery_order', 'C01_receiver_delivers_productions', 'C01_production_spec', 'C01_sender_ids_and_payload', 'C01_frame_accepted_once', 'C01_slot_produces_once', 'C01_wire_exact', 'C01_reassembly_exact', 'C01_single_fragment_exact']
 USES_FLOATS = True
 NEEDS_RELEASE = True
-ASSUMPTIONS = ['proved over ALL histories of the receiver model (any datagrams, receive() calls, resynchronisations; proofs/ReceiverOrder.v): every packet handed out is tagged (channel, absolute id) with strictly increasing ids per channel: never twice, never out of order on a channel, across wrap-around of ids and slots', 'proved: component theorems (sender ids/payload, frame dedupe, one packet per slot generation, exact codec/fragmentation/reassembly); NOT proved: their composition into the network-level subsequence theorem (window agreement under bounded staleness of 20-bit ids) (partial)', 'end-to-end statement decided on the implementation by pair/ideal/live/reuse streams (loss, duplication, reordering, wrap-around bases, windows 2..4096) with unique payloads and the per-channel subsequence oracle']
+ASSUMPTIONS = ['proved over ALL histories of the receiver model (any datagrams, receive() calls, resynchronisations; proofs/ReceiverOrder.v): every packet handed out is tagged (channel, absolute id) with strictly increasing ids per channel: never twice, never out of order on a channel, across wrap-around of ids and slots; and every handed-out packet is a production of the assembly window for that very (channel, absolute id): same channel, same data (proofs/ReceiverData.v)', 'proved: component theorems (sender ids/payload, frame dedupe, one packet per slot generation, exact codec/fragmentation/reassembly); NOT proved: their composition into the network-level subsequence theorem (window agreement under bounded staleness of 20-bit ids) (partial)', 'end-to-end statement decided on the implementation by pair/ideal/live/reuse streams (loss, duplication, reordering, wrap-around bases, windows 2..4096) with unique payloads and the per-channel subsequence oracle']
 THEOREM_STATEMENTS = []
 
 
